@@ -7,7 +7,6 @@
 package py
 
 import (
-	"fmt"
 	"math"
 	"math/big"
 	"strconv"
@@ -48,10 +47,31 @@ func FloatNew(metatype *Type, args Tuple, kwargs StringDict) (Object, error) {
 }
 
 func (a Float) M__str__() (Object, error) {
-	if i := int64(a); Float(i) == a {
-		return String(fmt.Sprintf("%d.0", i)), nil
+	return String(floatRepr(float64(a))), nil
+}
+
+// floatRepr formats f the way python's repr does: the shortest
+// string of digits which converts back to the same float, in fixed
+// point notation (always with a decimal point) if the decimal
+// exponent is in -4 <= exp < 16 and in exponent notation otherwise.
+func floatRepr(f float64) string {
+	switch {
+	case math.IsNaN(f):
+		return "nan"
+	case math.IsInf(f, 1):
+		return "inf"
+	case math.IsInf(f, -1):
+		return "-inf"
 	}
-	return String(fmt.Sprintf("%g", a)), nil
+	s := strconv.FormatFloat(f, 'e', -1, 64)
+	exp, err := strconv.Atoi(s[strings.IndexByte(s, 'e')+1:])
+	if err == nil && exp >= -4 && exp < 16 {
+		s = strconv.FormatFloat(f, 'f', -1, 64)
+		if !strings.Contains(s, ".") {
+			s += ".0"
+		}
+	}
+	return s
 }
 
 func (a Float) M__repr__() (Object, error) {
